@@ -22,14 +22,14 @@ def reader(cls, tag):
     P("  assigns")
     P("  ensures size <= this->size_ - this->index_ ==> ERR(RET) == 0")
     P("  ensures size > this->size_ - this->index_ ==> ERR(RET) == E_ReadLimitReached")
-    P("job c17_%s_ensure\n  props C17 C02\n  enforce nop::%s::Ensure(unsigned long)\n" % (tag, cls))
+    P("job c17_%s_ensure\n  props C17 C02 C05\n  enforce nop::%s::Ensure(unsigned long)\n" % (tag, cls))
     P("contract nop::%s::Read(unsigned char *)" % cls)
     P("  requires RB_PRE(this) && FRESH(byte)")
     P("  assigns *byte, this->index_")
     P("  ensures this->index_ <= this->size_")
     P("  ensures OLD(this->index_) < this->size_ ==> (ERR(RET) == 0 && this->index_ == OLD(this->index_) + 1 && *byte == this->buffer_[OLD(this->index_)])")
     P("  ensures OLD(this->index_) >= this->size_ ==> (ERR(RET) == E_ReadLimitReached && this->index_ == OLD(this->index_))")
-    P("job c17_%s_read1\n  props C17 C02\n  enforce nop::%s::Read(unsigned char *)\n" % (tag, cls))
+    P("job c17_%s_read1\n  props C17 C02 C05\n  enforce nop::%s::Read(unsigned char *)\n" % (tag, cls))
     for t in ("u8", "u16", "u32", "u64", "f32"):
         ct, sz = T[t]
         key = "nop::%s::Read<%s, void>(%s *, %s *)" % (cls, ct, ct, ct)
@@ -40,14 +40,14 @@ def reader(cls, tag):
         P("  ensures vt_n * %d <= REM(this) ==> (ERR(RET) == 0 && this->index_ == OLD(this->index_) + vt_n * %d)" % (sz, sz))
         P("  ensures (vt_n * %d <= REM(this) && vt_k < vt_n * %d) ==> ((unsigned char*)begin)[vt_k] == this->buffer_[OLD(this->index_) + vt_k]" % (sz, sz))
         P("  ensures vt_n * %d > REM(this) ==> (ERR(RET) == E_ReadLimitReached && this->index_ == OLD(this->index_))" % sz)
-        P("job c17_%s_read_%s\n  props C17 C02\n  pre vt_n = nondet_ulong(); vt_k = nondet_ulong();\n  enforce %s\n" % (tag, t, key))
+        P("job c17_%s_read_%s\n  props C17 C02 C05\n  pre vt_n = nondet_ulong(); vt_k = nondet_ulong();\n  enforce %s\n" % (tag, t, key))
     P("contract nop::%s::Skip(unsigned long)" % cls)
     P("  requires RB_PRE(this)")
     P("  assigns this->index_")
     P("  ensures this->index_ <= this->size_")
     P("  ensures padding_bytes <= REM(this) ==> (ERR(RET) == 0 && this->index_ == OLD(this->index_) + padding_bytes)")
     P("  ensures padding_bytes > REM(this) ==> (ERR(RET) == E_ReadLimitReached && this->index_ == OLD(this->index_))")
-    P("job c17_%s_skip\n  props C17 C02\n  enforce nop::%s::Skip(unsigned long)\n" % (tag, cls))
+    P("job c17_%s_skip\n  props C17 C02 C05\n  enforce nop::%s::Skip(unsigned long)\n" % (tag, cls))
 
 reader("BufferReader", "br")
 reader("PedanticBufferReader", "pr")
